@@ -5,7 +5,7 @@ PROP = dict(
     family="kv", harness="kv", run_vo="Run/Kv.vo",
     coq_targets=["Vm/KvTie.vo"],
     theorems=["C33_coherent", "C33_coherent_at_transaction_start", "C33_refine", "C33_refine_history", "C33_cache_only_gas",
-              "C33_word_read", "C33_word_write", "C33_clear_quads", "C33_clear", "C33_dyn_read", "C33_dyn_write",
+              "C33_word_read", "C33_word_write", "C33_clear_quads", "C33_read_quads", "C33_write_quads", "C33_clear", "C33_dyn_read", "C33_dyn_write",
               "C33_dyn_update", "C33_preload", "C33_outside_contract"],
     open_statements=[
         "the whole-program statement 'every generated contract program returns what the plain map returns' is proved for the abstract machine "
@@ -37,6 +37,7 @@ PROP = dict(
         "the destination is writable / the source readable; the other cases are panics of the memory / register subsystems, which the model "
         "reproduces in the Rust order and the traces validate (examples: KvInstr.example_*)",
         "C33_dyn_update: max_storage_slot_length < 2^64 - 1 (so that the saturating offset + length comparison is exact)",
+        "C33_write_quads: the key is a 32-byte value (be_decode kb < 2^256) and every chunk read is 32 bytes long; satisfiable: KvQuads.quads_roundtrip",
     ],
     rule=("histories on one world: 2-4 transactions, each calling 1-4 contracts (contracts may call the next one in the middle of their sequence), every contract "
           "running 6-30 storage instructions over two overlapping key blocks (K..K+7 and 2^256-4..2^256-1): all 13 opcodes, ranges 0-5 (rarely 100..2^64-1), "
@@ -54,8 +55,7 @@ PROP = dict(
                 "the plain map, its declarative specification (zero fill and flags when absent, exact writes, interval clears, bounds panics, range overflow at "
                 "2^256 -> TooManySlots). The handlers are tied to the Rust interpreter by trace validation on every run"),
     level_note=("Proof over the abstract machine + trace validation, not a proof about the Rust interpreter. Not proved: that the Rust handlers equal the modelled "
-                "handlers (validated step by step on generated traces and by source fingerprints); the SRWQ / SWWQ handler-vs-specification lemmas are stated "
-                "(KvInstr.srwq_statement / swwq_statement) but only covered by C33_refine (store+cache = plain map) and trace validation; gas accounting; "
+                "handlers (validated step by step on generated traces and by source fingerprints); gas accounting; "
                 "storage back-ends other than MemoryStorage."),
     technique="Coq refinement proof over an effect DSL (induction over programs and histories) + step-wise trace validation against the real interpreter",
     design_ref="6/C33",
